@@ -323,6 +323,83 @@ def facts_apply(mod, em):
 
 
 # ------------------------------------------------------------------ focal._mean_numpy / _equal_numpy / mean
+
+def mean_loop_fact(mod):
+    """the wrapper `focal.mean`: is the result `passes` applications of the one-pass function to the (float) raster?
+
+        out = agg.data.astype(float)            # or `agg.data`; any name for `out`
+        ...                                     # statements that do not touch `out`
+        for <v> in range(passes):               # range(passes) / range(0, passes) / range(0, passes, 1)
+            out = _mean(out, <excludes ...>)    # fed back; the only call of the one-pass function in `mean`
+        return DataArray(out, ...)              # the iterated value is what is returned
+
+    -> (ok, source text, why not).  Anything else (loop moved into a helper / a backend, different trip count, result
+    not fed back, extra calls of the one-pass function, `out` rebound after the loop) is reported as not recognised."""
+    f = find_func(mod, "mean")
+    if f is None:
+        return False, None, "focal.mean not found"
+    params = [a.arg for a in f.args.args]
+    if len(params) < 2 or "passes" not in params:
+        return False, None, "no `passes` parameter"
+    agg = params[0]
+    body = [st for st in f.body if not (isinstance(st, ast.Expr) and isinstance(st.value, ast.Constant))]  # docstring
+    loops = [i for i, st in enumerate(body) if isinstance(st, (ast.For, ast.While))]
+    if len(loops) != 1 or not isinstance(body[loops[0]], ast.For):
+        return False, None, f"{len(loops)} loops at the top level of mean()"
+    li = loops[0]
+    lp = body[li]
+    try:
+        lo, hi = range_args(lp.iter)
+    except NoMatch as ex:
+        return False, None, str(ex)
+    if not (isinstance(lo, ast.Constant) and lo.value == 0 and isinstance(hi, ast.Name) and hi.id == "passes"):
+        return False, None, f"trip count {ast.unparse(lp.iter)}"
+    if lp.orelse or len(lp.body) != 1 or not isinstance(lp.body[0], ast.Assign) or len(lp.body[0].targets) != 1:
+        return False, None, "loop body is not a single assignment"
+    st = lp.body[0]
+    if not (isinstance(st.targets[0], ast.Name) and isinstance(st.value, ast.Call) and isinstance(st.value.func, ast.Name)
+            and len(st.value.args) + len(st.value.keywords) == 2 and st.value.args
+            and isinstance(st.value.args[0], ast.Name) and st.value.args[0].id == st.targets[0].id):
+        return False, None, "loop body is not `out = <one-pass>(out, excludes)`"
+    out, one = st.targets[0].id, st.value.func.id
+    if one != "_mean":
+        return False, None, f"one-pass function is {one}"
+    second = st.value.args[1] if len(st.value.args) == 2 else st.value.keywords[0].value
+    if "excludes" not in {n.id for n in ast.walk(second) if isinstance(n, ast.Name)}:
+        return False, None, "second argument does not carry `excludes`"
+    if isinstance(lp.target, ast.Name) and lp.target.id in (out, "passes", "excludes"):
+        return False, None, "loop variable shadows a name used in the body"
+    if sum(1 for n in ast.walk(f) if isinstance(n, ast.Call) and call_name(n.func) == one) != 1:
+        return False, None, "more than one call of the one-pass function"
+    # passes / excludes / out are not rebound elsewhere (out: exactly once before the loop)
+    stores = {}
+    for n in ast.walk(f):
+        if isinstance(n, ast.Name) and isinstance(n.ctx, (ast.Store, ast.Del)):
+            stores[n.id] = stores.get(n.id, 0) + 1
+    if stores.get("passes", 0) != 0:
+        return False, None, "`passes` is rebound"
+    if stores.get(out, 0) != 2:
+        return False, None, f"`{out}` is bound {stores.get(out, 0)} times"
+    init = [s2 for s2 in body[:li] if isinstance(s2, ast.Assign) and len(s2.targets) == 1
+            and isinstance(s2.targets[0], ast.Name) and s2.targets[0].id == out]
+    if len(init) != 1:
+        return False, None, f"`{out}` is not initialised before the loop"
+    iv = init[0].value
+    data_attr = f"{agg}.data"
+    if not (ast.unparse(iv) == data_attr
+            or (isinstance(iv, ast.Call) and isinstance(iv.func, ast.Attribute) and iv.func.attr == "astype"
+                and ast.unparse(iv.func.value) == data_attr)):
+        return False, None, f"initial value {ast.unparse(iv)}"
+    rets = [n for n in ast.walk(f) if isinstance(n, ast.Return)]
+    if len(rets) != 1 or body[-1] is not rets[0]:
+        return False, None, "not exactly one return at the end"
+    rv = rets[0].value
+    if not (isinstance(rv, ast.Call) and call_name(rv.func) == "DataArray" and rv.args
+            and isinstance(rv.args[0], ast.Name) and rv.args[0].id == out):
+        return False, None, "the iterated value is not what is returned"
+    return True, (ast.unparse(init[0]) + "; " + ast.unparse(lp).replace("\n", "; ") + "; return DataArray(" + out + ", ...)"), ""
+
+
 def facts_mean(mod, em):
     names_int = ["mean_row_lo", "mean_row_hi", "mean_col_lo", "mean_col_hi"]
     f = find_func(mod, "_mean_numpy")
@@ -463,29 +540,10 @@ def facts_mean(mod, em):
         em.define("equal_numpy_cond", "", "C", "C.ff", None)
         em.define("equal_numpy_args", "", "String × String", '("?", "?")', None)
 
-    # mean(): out = agg.data.astype(float); for i in range(passes): out = _mean(out, tuple(excludes))
-    f = find_func(mod, "mean")
-    ok = False
-    src = None
-    if f is not None:
-        loops = [s for s in f.body if isinstance(s, ast.For)]
-        if len(loops) == 1:
-            lp = loops[0]
-            try:
-                lo, hi = range_args(lp.iter)
-                if isinstance(lo, ast.Constant) and lo.value == 0 and isinstance(hi, ast.Name) and hi.id == "passes" \
-                        and len(lp.body) == 1 and isinstance(lp.body[0], ast.Assign) \
-                        and isinstance(lp.body[0].targets[0], ast.Name) and isinstance(lp.body[0].value, ast.Call) \
-                        and call_name(lp.body[0].value.func) == "_mean" and len(lp.body[0].value.args) == 2 \
-                        and isinstance(lp.body[0].value.args[0], ast.Name) \
-                        and lp.body[0].value.args[0].id == lp.body[0].targets[0].id \
-                        and "excludes" in ast.unparse(lp.body[0].value.args[1]) \
-                        and sum(1 for n in ast.walk(f) if isinstance(n, ast.Call) and call_name(n.func) == "_mean") == 1:
-                    ok = True
-                    src = ast.unparse(lp).replace("\n", "; ")
-            except NoMatch:
-                ok = False
-    em.define("mean_iterates_passes", "", "Bool", "true" if ok else "false", src)
+    ok, src, why = mean_loop_fact(mod)
+    if not ok:
+        em.rep["mean_iterates_passes_error"] = why
+    em.define("mean_iterates_passes", "", "Bool", "true" if ok else "false", src if ok else None)
 
 
 # ------------------------------------------------------------------ built-in reducers, focal_stats table
